@@ -15,6 +15,7 @@ import (
 	"github.com/TarsCloud/TarsGo/tars/util/current"
 	"github.com/TarsCloud/TarsGo/tars/util/endpoint"
 	"github.com/TarsCloud/TarsGo/tars/util/tools"
+	"github.com/TarsCloud/TarsGo/tars/util/vhook"
 )
 
 var (
@@ -244,13 +245,25 @@ func (s *ServantProxy) doInvoke(ctx context.Context, msg *Message, timeout time.
 		adp.pushCallback = s.pushCallback
 	}
 
+	if vhook.Enabled {
+		vhook.At("mux.reg.begin", s, adp, msg)
+	}
 	atomic.AddInt32(&s.queueLen, 1)
 	readCh := make(chan *requestf.ResponsePacket)
 	adp.resp.Store(msg.Req.IRequestId, readCh)
+	if vhook.Enabled {
+		vhook.At("mux.registered", s, adp, msg)
+	}
 	defer func() {
 		CheckPanic()
+		if vhook.Enabled {
+			vhook.At("mux.unreg.begin", s, adp, msg)
+		}
 		atomic.AddInt32(&s.queueLen, -1)
 		adp.resp.Delete(msg.Req.IRequestId)
+		if vhook.Enabled {
+			vhook.At("mux.unregistered", s, adp, msg)
+		}
 	}()
 	if err := adp.Send(msg.Req); err != nil {
 		adp.failAdd()
